@@ -724,6 +724,27 @@ def _eval_pkg(spec):
                 m["dec_exc"] = repr(e)[:200]
             r[mode] = m
         res["cfgs"].append(r)
+    # the same package object, modified after it has been encoded, and encoded again: the property
+    # holds for the package as it is at the time of each call
+    try:
+        from hugr.envelope import EnvelopeConfig, EnvelopeFormat
+
+        pkg.modules.append(build_module(len(spec["mods"]) + 17, 1))
+        if pkg.extensions:
+            pkg.extensions.reverse()
+        if len(pkg.modules) > 1:
+            pkg.modules[0].root.metadata["verif.touched"] = [len(spec["mods"])]
+            pkg.modules[0][pkg.modules[0].root].metadata["verif.touched"] = [len(spec["mods"])]
+        want2 = _docs(pkg)
+        mut = {"want": want2}
+        try:
+            out2 = pkg.to_bytes(EnvelopeConfig(format=EnvelopeFormat.JSON, zstd=None))
+            mut["got"] = _docs(Package.from_bytes(out2))
+        except Exception as e:  # noqa: BLE001
+            mut["exc"] = repr(e)[:200]
+        res["mut"] = mut
+    except Exception as e:  # noqa: BLE001
+        res["mut"] = {"skip": repr(e)[:200]}
     # reference: the package codec without any envelope
     try:
         import hugr._serialization.extension as ext_s
@@ -1082,6 +1103,13 @@ def _oracle_pkg(spec):
         return []
     fails = []
     want = res["want"]
+    mut = res.get("mut", {})
+    if "exc" in mut:
+        fails.append(Failure("Package.to_bytes", "re-encoding-a-modified-package-fails", mut["exc"]))
+    elif "got" in mut and mut["got"] != mut["want"]:
+        fails.append(Failure("Package.to_bytes", "re-encoding-a-modified-package-is-stale",
+                             f"{len(mut['got'][0])} modules / {len(mut['got'][1])} extensions decoded, "
+                             f"{len(mut['want'][0])} / {len(mut['want'][1])} in the package"))
     for r in res["cfgs"]:
         if "bad_cfg" in r:
             continue
